@@ -288,7 +288,15 @@ pub fn gen(r: &mut Rng, thorough: bool) -> Vec<(String, String)> {
                 if ok { break (s1, s2); }
             };
             let (p1, p2, pos12) = gen_poses(r, lat, &s1, &s2);
-            let par = gen_param(r, lat);
+            let mut par = gen_param(r, lat);
+            if r.below(5) == 0 {
+                // tie: prediction / margin exactly equal to the reported distance (`<=` vs `<`)
+                let c = d_contact(&s1, &s2, &pos12, 1.0e6);
+                if c.starts_with("some") {
+                    let d = f64::from_bits(u64::from_str_radix(c.split_whitespace().last().unwrap(), 16).unwrap_or(0));
+                    if d.is_finite() && d > 0.0 { par = d; }
+                }
+            }
             let ss = format!("{} {} {}", hsh(&s1), hsh(&s2), d3::hiso(&pos12));
             v.push(("d_contact".into(), format!("{} {}", ss, hx(par))));
             v.push(("d_distance".into(), ss.clone()));
